@@ -37,6 +37,36 @@ json.dump(o,open("$B/overlay-narrow.json","w"),indent=1)
 PY
   go build -tags verif -overlay $B/overlay-narrow.json -o $B/vcheck-narrow ./cmd/vcheck || { echo "HARNESS-ERROR: narrowed harness build failed"; exit 2; }
 fi
+if [ "$what" = sched ]; then
+  # scheduler build: the concurrent sources of /repo (and the go-pipe shim) are rewritten from their
+  # current text so that every synchronisation operation is a scheduling point of verifsched
+  mkdir -p $B/sched/repo $B/sched/pipe
+  go build -o $B/rewrite ./cmd/rewrite || { echo "HARNESS-ERROR: rewrite tool build failed"; exit 2; }
+  python3 - <<PY
+import json,subprocess,os,sys
+B="$B"; H="$H"
+o=json.load(open(B+"/overlay.json"))
+files=["meter/meter.go","sizes/graph.go","sizes/path_resolver.go","git/obj_iter.go","git/batch_obj_iter.go","git/ref_iter.go","git/git_bin.go"]
+for f in files:
+    src="/repo/"+f
+    if not os.path.exists(src): continue
+    dst=B+"/sched/repo/"+f.replace("/","__")
+    r=subprocess.run([B+"/rewrite",src,dst],capture_output=True,text=True)
+    if r.returncode!=0:
+        print("HARNESS-ERROR: rewrite of",src,"failed:",r.stderr); sys.exit(2)
+    o["Replace"][src]=dst
+for f in os.listdir(H+"/shimpipe/pipe"):
+    src=H+"/shimpipe/pipe/"+f
+    dst=B+"/sched/pipe/"+f
+    r=subprocess.run([B+"/rewrite",src,dst],capture_output=True,text=True)
+    if r.returncode!=0:
+        print("HARNESS-ERROR: rewrite of",src,"failed:",r.stderr); sys.exit(2)
+    o["Replace"][src]=dst
+json.dump(o,open(B+"/overlay-sched.json","w"),indent=1)
+PY
+  [ $? = 0 ] || exit 2
+  go build -tags verif -overlay $B/overlay-sched.json -o $B/vcheck-sched ./cmd/vcheck || { echo "HARNESS-ERROR: scheduler harness build failed"; exit 2; }
+fi
 if [ "$what" = all ] || [ "$what" = fakegit ]; then
   go build -o $B/fakegit/git ./cmd/fakegit || { echo "HARNESS-ERROR: fakegit build failed"; exit 2; }
 fi
